@@ -79,8 +79,31 @@ def _as_set(x, what):
 
 
 def check(case):
+    lab = _check_graph(case, _mat(case))
+    if case.get("edit"):
+        # the caller edits the SAME array in place (drops / adds an edge) and asks again: answers must follow the edit
+        A = _mat(case)
+        first = dict(case, what=["paths", "sep", "reach", "comp"])
+        _check_graph(first, A)
+        i, j, mode = case["edit"]
+        p = len(A)
+        i, j = i % p, j % p
+        if i != j:
+            if mode == "drop":
+                nz = np.argwhere(A != 0)
+                if len(nz):
+                    a, b = nz[(i * p + j) % len(nz)]
+                    A[a, b] = 0
+            elif A[i, j] == 0 and A[j, i] == 0:
+                A[i, j] = 1
+            if G.directed_part_acyclic(G.rows_from_matrix(A)):
+                _check_graph(first, A, "after an in-place edit of the same array: ")
+                lab = lab + ["edited_in_place"]
+    return lab
+
+
+def _check_graph(case, A, prefix=""):
     import sempler.utils as utils
-    A = _mat(case)
     keep = A.copy()
     rows = G.rows_from_matrix(A)
     p = len(rows)
@@ -91,7 +114,7 @@ def check(case):
         lab.append("mixed")
     if (A < 0).any():
         lab.append("neg")
-    ctx = "A=%s" % A.tolist()
+    ctx = prefix + "A=%s" % A.tolist()
     what = case.get("what", ["basic", "reach", "paths", "comp", "sep"])
     nodes = case.get("nodes", list(range(p)))
 
@@ -259,6 +282,8 @@ def _hyp_case(draw):
         case["nodes"] = act + rest
     case["sub"] = "hyp"
     case["kind"] = kind
+    if draw(st.integers(0, 2)) == 0 and p <= 8:
+        case["edit"] = [draw(st.integers(0, 11)), draw(st.integers(0, 11)), draw(st.sampled_from(["drop", "drop", "add"]))]
     return case
 
 
